@@ -216,6 +216,14 @@ def c09(tier, seed):
     sols = HEAT + EULER + NS + MISC + SA + CHEM
     cases, points = (500, 8) if tier == "quick" else (6000, 16)
     shards = pde_shards(pde_exe("plain"), sols, seed, cases, points, "source,exact,grad", dl=True, tag="O0:")
+    # the closed-form solutions of C08 (Sod, conjugate normal) against their quad references, reporting for C09 (accuracy bound 2^14 u for the Sod states)
+    exe_cl = build.build_bin("plain", "mon_closed", COMMON + ["mon_closed.cpp"], opt="-O2")
+    ncl, kcl = (300, 2) if tier == "quick" else (10000, 8)
+    for what in ("sod", "cp"):
+        for p in ("d", "l"):
+            for i in range(kcl):
+                shards.append(Shard(exe_cl, [str(a) for a in ["--seed", seed, "--shard", 300 + i * 2 + (p == "l") + (100 if what == "cp" else 0), "--what", what, "--prec", p, "--cases", ncl, "--prop", "C09"]],
+                                    "closed:%s/%s/%d" % (what, p, i), timeout=3600))
     if tier == "thorough":
         shards += pde_shards(pde_exe("opt"), sols, seed + 1, cases // 2, points, "source,exact,grad", dl=True, tag="O2:")
         shards += pde_shards(pde_exe("opt3"), sols, seed + 2, cases // 4, points, "source,exact,grad", dl=True, tag="O3:")
@@ -230,7 +238,7 @@ def c09(tier, seed):
     cov["library_flavours"] = ["g++ -O0 -fno-unsafe-math-optimizations"] + (["g++ -O2 -fno-unsafe-math-optimizations", "g++ -O3 -fno-unsafe-math-optimizations", "clang++ 14 -O2 -fno-unsafe-math-optimizations"] if tier == "thorough" else [])
     floors = [("every solution of C01-C06 contributed samples", agg.ndistinct("solutions") == len(sols)),
               ("double vs long double compared at least 5000 times", agg.count("double_vs_longdouble_comparisons") >= 5000)]
-    return finish(agg, "exploration", cov, PDE_ASSUME + ["C08 solutions (sod_1d, cp_normal) are covered for precision by the C08 monitor's own quad references"], floors)
+    return finish(agg, "exploration", cov, PDE_ASSUME + ["C08 solutions (sod_1d, cp_normal): the C08 monitor's quad references, run here as extra shards (Sod accuracy bound 2^14 u, closed forms 2^20 u x conditioning)"], floors)
 
 
 # --------------------------------------------------------------------------------------------- C20
@@ -339,7 +347,11 @@ def hist_cov(agg, extra):
 def c10(tier, seed):
     agg = Agg("C10", tier, seed)
     steps, ne, npl = (6000, 10, 6) if tier == "quick" else (250000, 12, 8)
-    agg.add_shards(run_shards(hist_shards(seed, "purity", steps, ne, npl)))
+    shards = hist_shards(seed, "purity", steps, ne, npl)
+    # the directed part: vector parameters of lengths 1000 -> 300 -> 100000 -> ... -> 25 on one handle, every evaluation reproduced on a fresh twin
+    for fl in ("exc", "plain"):
+        shards.append(Shard(hist_exe(fl), ["--mode", "sweep", "--seed", str(seed), "--shard", "901"], fl + "/sweep+large-vectors", env=NOLEAK))
+    agg.add_shards(run_shards(shards))
     cov = hist_cov(agg, "Focus: evaluator calls (45%).")
     floors = [("at least 5000 evaluator calls", agg.count("evaluations") >= 5000), ("at least 1000 repeated calls", agg.count("repeated_evaluations") >= 1000),
               ("at least 300 twin-handle reproductions", agg.count("twin_reproductions") >= 300), ("at least 30 solution types evaluated", agg.ndistinct("solutions_initialised") >= 30)]
